@@ -39,6 +39,7 @@ type params struct {
 	Msg    string   `json:"msg"`
 	KeySet int      `json:"keyset"` // which key generation the material comes from (0/1)
 	PreSig int      `json:"presig"` // which presignature (0/1)
+	Child  bool     `json:"child"`  // key material is the BIP-32 child (index 0) of the key set
 }
 
 func (p params) String() string {
@@ -46,7 +47,7 @@ func (p params) String() string {
 	if p.SID != nil {
 		sid = fmt.Sprintf("%q", *p.SID)
 	}
-	return fmt.Sprintf("%s sid=%s ids=%v t=%d msg=%q keys=%d presig=%d", p.Proto, sid, p.IDs, p.T, p.Msg, p.KeySet, p.PreSig)
+	return fmt.Sprintf("%s sid=%s ids=%v t=%d msg=%q keys=%d child=%v presig=%d", p.Proto, sid, p.IDs, p.T, p.Msg, p.KeySet, p.Child, p.PreSig)
 }
 
 func pids(l []string) []party.ID {
@@ -138,6 +139,13 @@ func spec(p params) (*sess.Spec, error) {
 			if err := c.UnmarshalBinary(b); err != nil {
 				return nil, err
 			}
+			if p.Child {
+				cc, err := c.DeriveBIP32(0)
+				if err != nil {
+					return nil, err
+				}
+				c = cc
+			}
 			k[id] = c
 		}
 		switch p.Proto {
@@ -148,7 +156,7 @@ func spec(p params) (*sess.Spec, error) {
 		case "cmp-refresh":
 			sp = sess.CMPRefresh(k, ids)
 		case "cmp-presign-online":
-			pl := fmt.Sprintf("%s/%d", lbl, p.PreSig)
+			pl := fmt.Sprintf("%s/%v/%d", lbl, p.Child, p.PreSig)
 			if _, ok := cmpPre[pl]; !ok {
 				o := sess.Run(sess.CMPPresign(k, ids), int64(10+p.PreSig), "c09presig")
 				m := map[party.ID]*ecdsa.PreSignature{}
@@ -226,13 +234,19 @@ func variants(base params, cmpLike bool) map[string]params {
 		p.PreSig = 1 - base.PreSig
 		v["presignature"] = p
 	}
+	if cmpLike && base.Proto != "cmp-keygen" {
+		// related key material: the BIP-32 child shares everything with its parent except the ECDSA shares
+		p := base
+		p.Child = !base.Child
+		v["key-material=bip32-child"] = p
+	}
 	return v
 }
 
 // which parameters the property requires the tag to depend on, per protocol
 func tagMustDiffer(proto, param string) bool {
 	switch {
-	case strings.HasPrefix(param, "message"), param == "key-material", param == "presignature":
+	case strings.HasPrefix(param, "message"), strings.HasPrefix(param, "key-material"), param == "presignature":
 		return proto == "cmp-sign" || proto == "cmp-presign" || proto == "cmp-refresh" || proto == "cmp-presign-online"
 	}
 	return true
@@ -413,6 +427,22 @@ func replayPair(A, B params, pclass string, sameTag bool, res *vkit.Result) bool
 	var msgsA []*protocol.Message
 	for _, id := range oA.Net.IDs {
 		msgsA = append(msgsA, oA.Net.Parties[id].Sent...)
+	}
+	// abort notices of A: what a party of A emits when it is stopped right after starting
+	if spA2, err := spec(A); err == nil {
+		netA, se := sess.Build(spA2, *vkit.Seed, "c09A")
+		if len(se) == 0 {
+			for _, id := range netA.IDs {
+				p := netA.Parties[id]
+				before := len(p.Sent)
+				p.Guard(func() { p.H.Stop() })
+				for _, m := range p.Sent[before:] {
+					if m.RoundNumber == 0 {
+						msgsA = append(msgsA, m)
+					}
+				}
+			}
+		}
 	}
 	// reference B
 	ref := sess.Run(spB, *vkit.Seed, "c09B")
